@@ -28,8 +28,23 @@ from harness.common import Ctx, Part, lean_batch_parallel, load_corpus, pmap
 NS = "IrVerif.LinkedSet."
 THEOREMS = [NS + t for t in (
     "C11_rep_empty",
-    "C11_rep_remove",
-    "C11_rep_insertOneAfter",
+    "C11_rep_step",
+    "C11_rep_history",
+    "C11_refine_step",
+    "C11_refine_next",
+    "C11_refine_start",
+    "C11_refine_rest",
+    "C11_terminates",
+    "C11_only_members",
+    "C11_getitem_len_contains",
+    "C11_tombstone_frozen",
+    "C11_tombstone_order",
+    "C11_next_rest",
+    "C11_untouched_step",
+    "C11_untouched_exactly_once_in_order",
+    "C11_spec_rest_remove",
+    "C11_spec_rest_insert",
+    "C11_spec_resume",
 )]
 ASSUMPTIONS = [
     "CPython generators are modelled as explicit cursors (suspended at the yield; the loop reads box.next / box.prev "
@@ -40,6 +55,28 @@ ASSUMPTIONS = [
 
 STOP = "stop"
 RAISED = "raised"
+
+
+class _Hang(Exception):
+    pass
+
+
+def _alarm(_sig, _frm):
+    raise _Hang()
+
+
+def guarded_next(it, seconds=5.0):
+    """next(it) with a wall-clock guard: a generator that loops forever (possible when a change breaks the
+    tombstone links) is reported instead of hanging the check."""
+    import signal
+
+    old = signal.signal(signal.SIGALRM, _alarm)
+    signal.setitimer(signal.ITIMER_REAL, seconds)
+    try:
+        return next(it)
+    finally:
+        signal.setitimer(signal.ITIMER_REAL, 0)
+        signal.signal(signal.SIGALRM, old)
 
 # ----------------------------------------------------------------------------- reference spec
 
@@ -280,6 +317,9 @@ BOXES = {"dls": DlsBox, "graph": GraphBox, "function": FuncBox}
 # ----------------------------------------------------------------------------- one history
 
 
+_SEEN_SIGS: set[str] = set()
+
+
 class CurState:
     """Per real iterator: what the English clauses need."""
 
@@ -323,11 +363,18 @@ class Hist:
     def fail(self, clause, what, **extra):
         self.failed = True
         sig = f"{self.kind}:{clause}:after-{self.lastop}"
+        if sig in _SEEN_SIGS:  # one replay per signature and worker is enough
+            return
+        _SEEN_SIGS.add(sig)
         self.part.fail(sig, what, {**self.case_obj(), "step": len(self.ops), **extra})
 
     def snapshot(self, r):
         b = self.box
-        L = b.lst()
+        try:
+            L = b.lst()
+        except Exception as e:  # noqa: BLE001
+            self.fail("list-raised", f"list(c) raised {type(e).__name__}: {e}")
+            L = []
         rec = {"r": r, "L": L}
         try:
             rec["n"] = b.length()
@@ -338,7 +385,11 @@ class Hist:
                 rec[key] = b.get(i)
             except Exception:  # noqa: BLE001
                 rec[key] = None
-        rec["R"] = b.rlst()
+        try:
+            rec["R"] = b.rlst()
+        except Exception as e:  # noqa: BLE001
+            self.fail("reversed-raised", f"list(reversed(c)) raised {type(e).__name__}: {e}")
+            rec["R"] = None
         self.recs.append(rec)
         self.ref_rests.append([self.ref.rest(c.ref) for c in self.curs])
         # oracle: the sequence is the reference sequence; len / index / membership describe it
@@ -381,6 +432,12 @@ class Hist:
         except (ValueError, TypeError) as e:
             ok = False
             self.part.count(f"raised={type(e).__name__}")
+        except Exception as e:  # noqa: BLE001  (AssertionError of __len__, RuntimeError of __iter__, ...)
+            ok = False
+            self.ops.append(op)
+            self.lastop = op["o"]
+            self.fail("edit-unexpected-exception", f"{op} raised {type(e).__name__}: {e}")
+            self.ops.pop()
         want_ok = refcall()
         self.ops.append(op)
         self.lastop = op["o"]
@@ -472,8 +529,9 @@ class Hist:
         before = list(self.ref.L)
         try:
             call()
-        except AssertionError as e:
-            self.fail("sort-set", str(e))
+        except Exception as e:  # noqa: BLE001
+            self.lastop = "sort"
+            self.fail("sort-raised", f"sort() raised {type(e).__name__}: {e}")
             holder["perm"] = self.box.lst()
         perm = holder["perm"]
         op = {"o": "extend", "vs": perm}
@@ -501,9 +559,13 @@ class Hist:
         c = self.curs[k]
         now = self.box.lst()
         try:
-            v = self.box.oid(next(c.it))
+            v = self.box.oid(guarded_next(c.it))
         except StopIteration:
             v = STOP
+        except _Hang:
+            v = RAISED
+            c.it = iter(())
+            self.fail("no-termination", f"next() on iterator {k} ({c.d}) did not return within 5 s")
         except Exception as e:  # noqa: BLE001
             v = RAISED
             self.fail("next-raised", f"next() on iterator {k} ({c.d}) raised {type(e).__name__}: {e}")
@@ -536,6 +598,7 @@ class Hist:
         the whole-run clauses are evaluated."""
         n = len(self.box.lst())
         self.lastop = "drain"
+        self.y0 = list(self.curs[0].yields) if self.curs else None
         tail = []
         for k, c in enumerate(self.curs):
             got = []
@@ -650,13 +713,13 @@ def run_explicit(kind, n0, universe, dirs, pre, ops, part):
     return h
 
 
-def enumerate_small(kind, n0, universe, dirs, pre, depth, part, out):
+def enumerate_small(kind, n0, universe, dirs, pre, depth, part, sink):
     """Depth-first over all op sequences of length <= depth (each history is re-executed from scratch:
-    generators cannot be copied)."""
+    generators cannot be copied). `sink(h)` receives every executed history."""
 
     def rec(prefix):
         h = run_explicit(kind, n0, universe, dirs, pre, prefix, part)
-        out.append(h)
+        sink(h)
         if len(prefix) >= depth:
             return
         for op in small_alphabet(h.ref.L, universe, len(dirs)):
@@ -701,7 +764,7 @@ class RecRef:
         return STOP
 
 
-def recursive_history(rng, part, nops):
+def recursive_history(rng, part, nops, tag=None):
     """Nested graphs (GRAPH and GRAPHS attributes, depth <= 2); edits of the node sequences of any of the
     graphs interleaved with next() on RecursiveGraphIterator(forward / reverse). Python side only."""
     import onnx_ir as ir
@@ -742,7 +805,10 @@ def recursive_history(rng, part, nops):
 
     def fail(clause, what):
         failed.append(clause)
-        part.fail(f"recursive:{clause}", what, {"log": log})
+        if f"recursive:{clause}" in _SEEN_SIGS:
+            return
+        _SEEN_SIGS.add(f"recursive:{clause}")
+        part.fail(f"recursive:{clause}", what, {"log": log, "rec_seed": tag, "nops": nops})
 
     def lists():
         return [[ident[id(n)][1] for n in g] for g in graphs]
@@ -760,7 +826,7 @@ def recursive_history(rng, part, nops):
             k = rng.randrange(len(its))
             it, rr, rev = its[k]
             try:
-                n = next(it)
+                n = guarded_next(it)
                 got = ident[id(n)]
                 if n.graph is not graphs[got[0]] or n not in graphs[got[0]]:
                     fail("yield-nonmember", f"recursive iterator yielded {got} which is not in its graph")
@@ -809,7 +875,7 @@ def recursive_history(rng, part, nops):
     for k, (it, rr, rev) in enumerate(its):
         for _ in range(3 * total + 3):  # a moved node's subgraph may legitimately be entered again
             try:
-                got = ident[id(next(it))]
+                got = ident[id(guarded_next(it))]
             except StopIteration:
                 got = STOP
             except Exception as e:  # noqa: BLE001
@@ -836,6 +902,7 @@ def _pack(h: Hist, tail=None):
         "req": {"m": "lset.run", "init": h.init, "ops": h.ops},
         "recs": h.recs,
         "ref_rests": h.ref_rests,
+        "y0": getattr(h, "y0", None),
         "case": h.case_obj(),
         "failed": h.failed,
     }
@@ -858,40 +925,54 @@ def _work_random(job):
         for o in h.ops:
             part.count("op=" + o["o"])
         out.append(_pack(h))
-    return part, out
+    compare(part, out)
+    return part, []
 
 
 def _work_recursive(job):
     seed, count = job
     part = Part()
-    rng = random.Random(seed)
-    for _ in range(count):
-        recursive_history(rng, part, rng.choice([10, 20, 40]))
+    for i in range(count):
+        tag = f"{seed}:{i}"
+        rng = random.Random(tag)  # one PRNG per history so that a failing one can be replayed alone
+        recursive_history(rng, part, rng.choice([10, 20, 40]), tag)
     return part, []
 
 
 def _work_small(job):
     kind, n0, universe, dirs, pre, depth = job
     part = Part()
-    hs = []
-    enumerate_small(kind, n0, universe, dirs, pre, depth, part, hs)
-    out = []
-    for h in hs:
+    buf = []
+
+    def sink(h):
         part.case([kind, h.init, dirs, pre, h.ops], nontrivial=True, kind=kind + "-small", n0=n0)
-        out.append(_pack(h))
-    return part, out
+        buf.append(_pack(h))
+        if len(buf) >= 4000:
+            compare(part, buf)
+            buf.clear()
+
+    enumerate_small(kind, n0, universe, dirs, pre, depth, part, sink)
+    compare(part, buf)
+    return part, []
 
 
 # ----------------------------------------------------------------------------- comparison
 
 
-def compare(ctx: Ctx, packs: list[dict]) -> None:
-    outs = lean_batch_parallel([p["req"] for p in packs])
+def compare(ctx, packs: list[dict]) -> None:
+    """Model vs implementation on every step of every history (ctx: a Ctx or a worker's Part)."""
+    from harness.common import lean_batch
+
+    outs = lean_batch([p["req"] for p in packs])
     for p, out in zip(packs, outs):
         if "err" in out:
             ctx.disagree("model driver error", p["case"], out, None)
             continue
         steps = out["steps"]
+        h0 = out.get("hist0")
+        if p.get("y0") is not None and (h0 is None or h0.get("y") != p["y0"] or not h0.get("ok")):
+            ctx.disagree("runHist (model) != yields of iterator 0 (implementation)", p["case"], h0, p["y0"])
+            continue
         if len(steps) != len(p["recs"]):
             ctx.disagree("step count", p["case"], len(steps), len(p["recs"]))
             continue
@@ -919,17 +1000,15 @@ def run(ctx: Ctx) -> None:
     # corpus first
     for obj in load_corpus("C11"):
         replay(ctx, obj)
+    for part, _ in pmap(_work_recursive, [(f"C11:{ctx.seed}:rec:{sh}", ctx.pick(60, 600)) for sh in range(16)]):
+        ctx.merge(part)
     jobs = []
     per = ctx.pick(40, 400)
     nshards = ctx.pick(16, 48)
     for kind in ("dls", "graph", "function"):
         for sh in range(nshards if kind != "function" else nshards // 2):
             jobs.append((kind, f"C11:{ctx.seed}:{kind}:{sh}", per, ctx.quick))
-    packs: list[dict] = []
-    for part, out in pmap(_work_random, jobs):
-        ctx.merge(part)
-        packs += out
-    for part, _ in pmap(_work_recursive, [(f"C11:{ctx.seed}:rec:{sh}", ctx.pick(60, 600)) for sh in range(16)]):
+    for part, _ in pmap(_work_random, jobs):
         ctx.merge(part)
     # exhaustive small scope
     depth = ctx.pick(2, 3)
@@ -941,20 +1020,25 @@ def run(ctx: Ctx) -> None:
                     if kind == "graph" and (n0 < 3 or dirs != "fr"):
                         continue
                     sjobs.append((kind, n0, n0 + 1, dirs, list(pre), depth))
-    for part, out in pmap(_work_small, sjobs):
+    for part, _ in pmap(_work_small, sjobs):
         ctx.merge(part)
-        packs += out
     ctx.exhaustive_scopes.append(
         f"DoublyLinkedSet: every sequence of <= {depth} operations from "
         "{next(c0), next(c1), remove x, append x, insert_after(a,[x]), insert_before(a,[x])} (x over the initial nodes "
         "+ 1 fresh node, a over present nodes) on every initial sequence of <= 3 nodes, 2 cursors in every direction "
         "pair (ff, fr, rr), each pre-advanced by every count 0..n; ir.Graph: same for n = 3, direction pair fr"
     )
-    compare(ctx, packs)
 
 
 def replay(ctx: Ctx, obj: dict) -> None:
     case = obj.get("case", obj)
+    if case.get("rec_seed"):
+        part = Part()
+        rng = random.Random(case["rec_seed"])
+        rng.choice([10, 20, 40])  # same draw as the worker made before the history
+        recursive_history(rng, part, case["nops"], case["rec_seed"])
+        ctx.merge(part)
+        return
     if "ops" not in case:
         return
     part = Part()
